@@ -589,3 +589,6 @@ HARNESSES.append(Harness(
     functions=["connections/redis/message_broker.py:RedisMessageBroker.reject", "connections/redis/message_broker.py:RedisMessageBroker.ack",
                "_runner.py:_Runner._process_with_event"],
     covers=["stopped", "long-copy-interrupted", "short-copy-finished"], stubs=["fake Redis server"]))
+
+from engine.harness import borrowed  # noqa: E402
+HARNESSES.append(borrowed("c02", "H02-rabbit-slow-settle", "H03-rabbit-slow-settle"))   # a cancellation while a settle call drains: the delivery is not both settled and handed back
